@@ -421,12 +421,12 @@ pub fn jobs_for(prop: &str, thorough: bool) -> Vec<Job> {
             c.dups = true;
             c.nobs = 1;
             c.policy = 255;
-            js.push(job("LI", "3 replicas + cut sweep", c, sw(10, Delivery::Causal, 0), 4000));
+            js.push(job("LI", "3 replicas + cut sweep", c, sw(10, Delivery::Causal, 0), 16000));
             let mut c4 = c;
             c4.nrep = 4;
             c4.nsteps = 40;
-            js.push(job("LI", "4 replicas, 40 steps", c4, sw(6, Delivery::Causal, 0), 1500));
-            let mut t = template_job("LI", mon::SPEC | mon::CONV | mon::ORDER | mon::EQ, Delivery::Causal, false, 1500);
+            js.push(job("LI", "4 replicas, 40 steps", c4, sw(6, Delivery::Causal, 0), 5000));
+            let mut t = template_job("LI", mon::SPEC | mon::CONV | mon::ORDER | mon::EQ, Delivery::Causal, false, 6000);
             t.cfg.dups = true;
             t.label = "conflict template: 4 actors editing around two positions (sibling and nested identifiers), every causal order";
             js.push(t);
